@@ -29,6 +29,7 @@ PROBES = [
     "short-root-replaced",
     "bystander-op",
     "dead-node-count-asked-by-subscript",
+    "refused-call-then-exactness-checked",
 ]
 FAULTS = ["batch-abort", "batch-abort-base", "restart-regenerated-counts"]
 COMPONENTS = {
@@ -58,6 +59,27 @@ class World(HWorld):
         self.by_db = SimDB()
         self.by = HexaryTrie(self.by_db, prune=True)
         self.by_model = {}
+
+    def op_badset(self, h, cmd):
+        """The client makes a call the trie refuses (ill-typed value or key).  Which
+        exception says so is C18's business; here: the store must still be exact."""
+        trie = h.btrie if (h.bgen is not None and cmd.get("on") == "batch") else h.trie
+        if h.bgen is not None and trie is h.trie:
+            return "skip"
+        k = unhx(cmd["k"])
+        bad = {"str": "text", "none": None, "int": 7}[cmd.get("bad", "str")]
+        try:
+            if cmd.get("arg") == "key":
+                trie.set(bad, b"value")
+            else:
+                trie.set(k, bad)
+            out = "accepted"
+        except Exception as e:
+            out = "refused:" + type(e).__name__
+        self.st.probe("refused-call-then-exactness-checked")
+        if h.bgen is None:
+            self.changed = True
+        return out
 
     def op_by(self, h, cmd):
         k = unhx(cmd["k"])
@@ -141,6 +163,9 @@ def generate(rng):
             if rng.random() < 0.7:
                 c["v"] = hx(rng.choice(values))
             cmds.insert(rng.randrange(len(cmds) + 1), c)
+    if rng.random() < 0.3:
+        for _ in range(rng.choice([1, 2, 4])):
+            cmds.insert(rng.randrange(len(cmds) + 1), {"op": "badset", "k": hx(rng.choice(pool)), "bad": rng.choice(["str", "none", "int"]), "arg": rng.choice(["value", "value", "key"]), "on": rng.choice(["live", "batch"])})
     return {"prop": ID, "cfg": {"prune": True, "cache": cache, "rc": rng.choice(["defaultdict", "defaultdict", "counter"]), "ask_dead": int(rng.random() < 0.5)}, "cmds": cmds}
 
 
